@@ -58,6 +58,10 @@ def build_cmd(spec):
         return led.QueryGearType(a)
     if k == "dtquery8":
         return colour.QueryColourStatus(a)
+    if k in ("appdt", "appdtq"):
+        # commands of a device type the APPLICATION defines (the way the library's own gear modules do), after the
+        # drivers were imported: they need their ENABLE DEVICE TYPE prefix like any other
+        return _app_classes()[k](a)
     if k == "edt":
         # an ENABLE DEVICE TYPE the caller's own sequence yields (for a device type no command of the pools uses)
         return g.EnableDeviceType(100 + a)
@@ -70,6 +74,27 @@ def build_cmd(spec):
     if k == "c24plain":
         return d.IdentifyDevice(address.DeviceShort(a)) if not d.IdentifyDevice.sendtwice else d.DTR0(a)
     raise ValueError(k)
+
+
+_APP = {}
+
+
+def _app_classes():
+    if not _APP:
+        from dali.gear.general import _StandardCommand
+        from dali.command import YesNoResponse
+
+        class _AppType7Command(_StandardCommand):
+            devicetype = 7
+
+        class AppType7Store(_AppType7Command):
+            _cmdval = 0xE1
+
+        class AppType7Query(_AppType7Command):
+            _cmdval = 0xF0
+            response = YesNoResponse
+        _APP.update(appdt=AppType7Store, appdtq=AppType7Query)
+    return _APP
 
 
 def frame_key(cmd):
